@@ -9,18 +9,27 @@
 (* Messages are records; validity is expressed through WHO signed:         *)
 (*   ca : c (scid) n1 n2 (announced node ids, n1 < n2), s1 s2 (keys that   *)
 (*        made the two node signatures: node index, 0 = unrelated key,     *)
-(*        -1 = signature over other bytes), bs (1 = bitcoin-key signatures *)
-(*        good), chain (TRUE = the graph's chain)                          *)
+(*        -1 = signature over other bytes, -2 = handed in through the      *)
+(*        UNSIGNED entry point, i.e. no verification requested), bs (1 =   *)
+(*        bitcoin-key signatures good), chain (TRUE = the graph's chain)   *)
 (*   cu : c, d (direction 0/1), ts, s (signing key), chain, payload        *)
 (*        en cltv hmin hmax fb fp                                          *)
-(*   na : n, ts, s, payload ap                                             *)
+(*   na : n, ts, s, payload ap (alias) ad (address)                        *)
 (* All messages carry all fields (unused ones 0) so they are one record    *)
 (* type.  Timestamps are offsets in seconds from the start of the run.     *)
+(* The timestamp / chain / capacity rules are the same whatever the entry  *)
+(* point (signed, unsigned, snapshot).                                     *)
 (*                                                                         *)
 (* Where the property text prescribes the outcome the action has exactly   *)
 (* one allowed outcome; where it is silent (a re-announcement of a removed *)
 (* channel, a conflicting announcement for a known scid, a half-updated    *)
 (* channel at pruning time) every outcome is allowed -- see *Allowed.      *)
+(*                                                                         *)
+(* Asynchronous UTXO lookups (amode): a valid announcement of an unknown   *)
+(* scid becomes PENDING; updates for it and announcements of its nodes     *)
+(* that arrive meanwhile are HELD; Resolve(c, ok, ..) applies the          *)
+(* announcement and, per direction / node, the NEWEST held message -- the  *)
+(* result must be what a synchronous lookup gives for the same messages.   *)
 (***************************************************************************)
 EXTENDS Integers, Sequences, FiniteSets, TLC
 
@@ -28,19 +37,26 @@ VARIABLES
   G,          \* [ch |-> [scid -> channel record], nd |-> [node -> node record]]
   Gprev,      \* G before the last step (for NeverOlder)
   lookup,     \* BOOLEAN: announcements are checked against a UTXO source (capacity known)
+  amode,      \* BOOLEAN: the UTXO source answers asynchronously
   caps,       \* scid -> capacity in sats reported by the UTXO source
   tombC,      \* channels removed at some point of the run (over-approximates the tombstones)
   tombN,      \* nodes reported failed at some point of the run
   delivered,  \* all messages handed to the graph so far (incl. unsigned ones from snapshots)
   eff,        \* valid messages delivered while what they refer to was present
-  pure        \* no removal / replacement / snapshot has changed the graph so far
+  pure,       \* no removal / replacement / snapshot has changed the graph so far
+  pend        \* scid -> [ca |-> pending announcement, held |-> messages held for it]
 
-avars == <<G, Gprev, lookup, caps, tombC, tombN, delivered, eff, pure>>
+avars == <<G, Gprev, lookup, amode, caps, tombC, tombN, delivered, eff, pure, pend>>
+
+Msg == [k |-> "", c |-> 0, n1 |-> 0, n2 |-> 0, s1 |-> 0, s2 |-> 0, bs |-> 0, chain |-> TRUE,
+        n |-> 0, d |-> 0, ts |-> 0, s |-> 0, en |-> FALSE, cltv |-> 0, hmin |-> 0, hmax |-> 0,
+        fb |-> 0, fp |-> 0, ap |-> 0, ad |-> 0, w |-> 0]
+NoMsg == [Msg EXCEPT !.k = "none"]
 
 NoDir == [has |-> FALSE, ts |-> 0, en |-> FALSE, cltv |-> 0, hmin |-> 0, hmax |-> 0, fb |-> 0, fp |-> 0]
 DirOf(m) == [has |-> TRUE, ts |-> m.ts, en |-> m.en, cltv |-> m.cltv, hmin |-> m.hmin,
              hmax |-> m.hmax, fb |-> m.fb, fp |-> m.fp]
-NoAnn == [ha |-> FALSE, ats |-> 0, ap |-> 0]
+NoAnn == [ha |-> FALSE, ats |-> 0, ap |-> 0, ad |-> 0]
 EmptyG == [ch |-> <<>>, nd |-> <<>>]
 
 Chs(g) == DOMAIN g.ch
@@ -66,26 +82,36 @@ AddChan(g, c, n1, n2, cap, art) ==
 
 SetDir(g, c, d, dir) ==
   [g EXCEPT !.ch[c] = IF d = 0 THEN [@ EXCEPT !.d0 = dir] ELSE [@ EXCEPT !.d1 = dir]]
-SetNode(g, n, ts, ap) == [g EXCEPT !.nd[n] = [ha |-> TRUE, ats |-> ts, ap |-> ap]]
+SetNode(g, n, ts, ap, ad) == [g EXCEPT !.nd[n] = [ha |-> TRUE, ats |-> ts, ap |-> ap, ad |-> ad]]
 
 CapOf(c) == IF lookup /\ c \in DOMAIN caps THEN caps[c] ELSE -1
+Pending == DOMAIN pend
 
 -----------------------------------------------------------------------------
 (* channel_announcement *)
-CAValid(m) == m.chain /\ m.s1 = m.n1 /\ m.s2 = m.n2 /\ m.bs = 1 /\ m.n1 < m.n2
+CASigned(m) == (m.s1 = m.n1 /\ m.s2 = m.n2 /\ m.bs = 1) \/ (m.s1 = -2 /\ m.s2 = -2)
+CAValid(m) == m.chain /\ CASigned(m) /\ m.n1 < m.n2
 Tombed(m) == m.c \in tombC \/ m.n1 \in tombN \/ m.n2 \in tombN
-SamePair(m) == G.ch[m.c].n1 = m.n1 /\ G.ch[m.c].n2 = m.n2
+SamePairG(g, m) == g.ch[m.c].n1 = m.n1 /\ g.ch[m.c].n2 = m.n2
+SamePair(m) == SamePairG(G, m)
 
-CAAllowed(m) ==
+\* outcomes when the verdict of the UTXO source is at hand (no source / synchronous / at Resolve)
+CAAllowedG(g, m) ==
   IF ~CAValid(m) THEN {"none"}
-  ELSE IF m.c \notin Chs(G) THEN (IF Tombed(m) THEN {"none", "add"} ELSE {"add"})
-  ELSE IF SamePair(m) /\ (G.ch[m.c].cap >= 0 \/ ~lookup) THEN {"none"}   \* duplicate
+  ELSE IF m.c \notin Chs(g) THEN (IF Tombed(m) THEN {"none", "add"} ELSE {"add"})
+  ELSE IF SamePairG(g, m) /\ (g.ch[m.c].cap >= 0 \/ ~lookup) THEN {"none"}   \* duplicate
   ELSE {"none", "replace"}    \* conflicting announcement / re-validation: not prescribed
 
-CAApply(m, o) ==
-  IF o = "add" THEN AddChan(G, m.c, m.n1, m.n2, CapOf(m.c), 0)
-  ELSE IF o = "replace" THEN AddChan(RemoveChans(G, {m.c}), m.c, m.n1, m.n2, CapOf(m.c), 0)
-  ELSE G
+CAAllowed(m) ==
+  IF amode /\ lookup /\ CAValid(m) /\ m.c \notin Chs(G)
+  THEN (IF m.c \in Pending THEN {"none"}              \* already being checked
+        ELSE IF Tombed(m) THEN {"none", "pending"} ELSE {"pending"})
+  ELSE CAAllowedG(G, m)
+
+CAApplyG(g, m, o) ==
+  IF o = "add" THEN AddChan(g, m.c, m.n1, m.n2, CapOf(m.c), 0)
+  ELSE IF o = "replace" THEN AddChan(RemoveChans(g, {m.c}), m.c, m.n1, m.n2, CapOf(m.c), 0)
+  ELSE g
 
 \* must the call report an error?  (invalid messages must be refused, not just ignored)
 CAMustErr(m) == ~CAValid(m)
@@ -93,23 +119,31 @@ CAMustErr(m) == ~CAValid(m)
 DeliverCA(m, o) ==
   /\ m.k = "ca"
   /\ o \in CAAllowed(m)
-  /\ G' = CAApply(m, o)
+  /\ G' = CAApplyG(G, m, o)
   /\ Gprev' = G
   /\ delivered' = delivered \cup {m}
-  /\ eff' = IF CAValid(m) /\ ~Tombed(m) THEN eff \cup {m} ELSE eff
+  /\ eff' = IF CAValid(m) /\ ~Tombed(m) /\ (o = "add" \/ m.c \in Chs(G)) THEN eff \cup {m} ELSE eff
   /\ pure' = (pure /\ o # "replace")
-  /\ UNCHANGED <<lookup, caps, tombC, tombN>>
+  /\ pend' = IF o = "pending" THEN [x \in Pending \cup {m.c} |->
+                                      IF x = m.c THEN [ca |-> m, held |-> {}] ELSE pend[x]]
+             ELSE pend
+  /\ UNCHANGED <<lookup, amode, caps, tombC, tombN>>
 
 (* channel_update *)
-CUReject(m) ==
+CURejectG(g, m) ==
   \/ ~m.chain
-  \/ m.c \notin Chs(G)
-  \/ /\ m.c \in Chs(G)
-     /\ \/ m.s # SignerOf(G, m.c, m.d)
-        \/ G.ch[m.c].cap >= 0 /\ m.hmax > G.ch[m.c].cap * 1000
-CUOld(m) == m.c \in Chs(G) /\ DirAt(G, m.c, m.d).has /\ DirAt(G, m.c, m.d).ts >= m.ts
+  \/ m.c \notin Chs(g)
+  \/ /\ m.c \in Chs(g)
+     /\ \/ m.s \notin {SignerOf(g, m.c, m.d), -2}
+        \/ g.ch[m.c].cap >= 0 /\ m.hmax > g.ch[m.c].cap * 1000
+CUOldG(g, m) == m.c \in Chs(g) /\ DirAt(g, m.c, m.d).has /\ DirAt(g, m.c, m.d).ts >= m.ts
+CUApplyG(g, m) == IF CURejectG(g, m) \/ CUOldG(g, m) THEN g ELSE SetDir(g, m.c, m.d, DirOf(m))
+CUReject(m) == CURejectG(G, m)
+CUOld(m) == CUOldG(G, m)
 CUAllowed(m) == IF CUReject(m) \/ CUOld(m) THEN {"none"} ELSE {"set"}
 CUMustErr(m) == CUReject(m)
+
+Hold(S, m) == [x \in Pending |-> IF x \in S THEN [pend[x] EXCEPT !.held = @ \cup {m}] ELSE pend[x]]
 
 DeliverCU(m, o) ==
   /\ m.k = "cu"
@@ -118,26 +152,72 @@ DeliverCU(m, o) ==
   /\ Gprev' = G
   /\ delivered' = delivered \cup {m}
   /\ eff' = IF ~CUReject(m) THEN eff \cup {m} ELSE eff
-  /\ UNCHANGED <<lookup, caps, tombC, tombN, pure>>
+  /\ pend' = IF m.chain /\ m.c \notin Chs(G) /\ m.c \in Pending THEN Hold({m.c}, m) ELSE pend
+  /\ UNCHANGED <<lookup, amode, caps, tombC, tombN, pure>>
 
 (* node_announcement *)
-NAReject(m) == m.s # m.n
-NAOld(m) == m.n \in Nds(G) /\ G.nd[m.n].ha /\ G.nd[m.n].ats >= m.ts
+NAReject(m) == m.s \notin {m.n, -2}
+NAOldG(g, m) == m.n \in Nds(g) /\ g.nd[m.n].ha /\ g.nd[m.n].ats >= m.ts
+NAApplyG(g, m) == IF NAReject(m) \/ m.n \notin Nds(g) \/ NAOldG(g, m) THEN g
+                  ELSE SetNode(g, m.n, m.ts, m.ap, m.ad)
+NAOld(m) == NAOldG(G, m)
 NAAllowed(m) == IF NAReject(m) \/ m.n \notin Nds(G) \/ NAOld(m) THEN {"none"} ELSE {"set"}
 NAMustErr(m) == NAReject(m)
 
 DeliverNA(m, o) ==
   /\ m.k = "na"
   /\ o \in NAAllowed(m)
-  /\ G' = IF o = "set" THEN SetNode(G, m.n, m.ts, m.ap) ELSE G
+  /\ G' = IF o = "set" THEN SetNode(G, m.n, m.ts, m.ap, m.ad) ELSE G
   /\ Gprev' = G
   /\ delivered' = delivered \cup {m}
   /\ eff' = IF ~NAReject(m) /\ m.n \in Nds(G) THEN eff \cup {m} ELSE eff
-  /\ UNCHANGED <<lookup, caps, tombC, tombN, pure>>
+  /\ pend' = IF ~NAReject(m) /\ m.n \notin Nds(G)
+             THEN Hold({x \in Pending : m.n \in {pend[x].ca.n1, pend[x].ca.n2}}, m) ELSE pend
+  /\ UNCHANGED <<lookup, amode, caps, tombC, tombN, pure>>
 
 Allowed(m) == IF m.k = "ca" THEN CAAllowed(m) ELSE IF m.k = "cu" THEN CUAllowed(m) ELSE NAAllowed(m)
 MustErr(m) == IF m.k = "ca" THEN CAMustErr(m) ELSE IF m.k = "cu" THEN CUMustErr(m) ELSE NAMustErr(m)
 Deliver(m, o) == DeliverCA(m, o) \/ DeliverCU(m, o) \/ DeliverNA(m, o)
+
+-----------------------------------------------------------------------------
+(* The asynchronous lookup of pending scid c completes.  pick = the held message applied per
+   key (d0, d1: the two directions; na, nb: the two nodes), NoMsg = none.  If every message held
+   for a key is valid and one is the newest, that one MUST be the one applied (the same graph as
+   with a synchronous lookup); if forged or same-timestamp messages compete for the key the
+   choice is not prescribed.                                                               *)
+HeldCU(c, d) == {m \in pend[c].held : m.k = "cu" /\ m.d = d}
+HeldNA(c, n) == {m \in pend[c].held : m.k = "na" /\ m.n = n}
+Newest(H) == CHOOSE m \in H : \A o \in H : o.ts <= m.ts
+CleanKey(g, H) ==
+  /\ \A m \in H : IF m.k = "cu" THEN ~CURejectG(g, m) ELSE ~NAReject(m)
+  /\ \A a, b \in H : a # b => a.ts # b.ts
+PickOK(g, H, p) ==
+  IF H = {} THEN p = NoMsg
+  ELSE IF CleanKey(g, H) THEN p = Newest(H)
+  ELSE p \in H \cup {NoMsg}
+ApplyPick(g, p) == IF p.k = "cu" THEN CUApplyG(g, p) ELSE IF p.k = "na" THEN NAApplyG(g, p) ELSE g
+
+Resolve(c, ok, o, pick) ==
+  IF c \notin Pending THEN UNCHANGED avars
+  ELSE
+    LET ca == pend[c].ca
+        g1 == CAApplyG(G, ca, o)
+        Hs == <<HeldCU(c, 0), HeldCU(c, 1), HeldNA(c, ca.n1), HeldNA(c, ca.n2)>>
+        clean == \A i \in 1..4 : Hs[i] = {} \/ CleanKey(g1, Hs[i])
+    IN
+    /\ Gprev' = G
+    /\ pend' = Restrict(pend, Pending \ {c})
+    /\ IF ok
+       THEN /\ o \in CAAllowedG(G, ca)
+            /\ \A i \in 1..4 : PickOK(g1, Hs[i], pick[i])
+            /\ G' = ApplyPick(ApplyPick(ApplyPick(ApplyPick(g1, pick[1]), pick[2]), pick[3]), pick[4])
+            /\ eff' = IF o = "add" /\ clean
+                      THEN eff \cup {ca} \cup {m \in pend[c].held : m.k = "na" \/ ~CURejectG(g1, m)}
+                      ELSE eff
+            /\ pure' = (pure /\ o = "add" /\ clean)
+       ELSE /\ o = "none"
+            /\ G' = G /\ eff' = eff /\ pure' = pure
+    /\ UNCHANGED <<lookup, amode, caps, tombC, tombN, delivered>>
 
 -----------------------------------------------------------------------------
 (* removals *)
@@ -146,7 +226,7 @@ FailChan(c) ==
   /\ Gprev' = G
   /\ tombC' = IF c \in Chs(G) THEN tombC \cup {c} ELSE tombC
   /\ pure' = (pure /\ c \notin Chs(G))
-  /\ UNCHANGED <<lookup, caps, tombN, delivered, eff>>
+  /\ UNCHANGED <<lookup, amode, caps, tombN, delivered, eff, pend>>
 
 FailNode(n) ==
   /\ G' = RemoveChans(G, ChansOf(G, n))
@@ -154,7 +234,7 @@ FailNode(n) ==
   /\ tombC' = tombC \cup ChansOf(G, n)
   /\ tombN' = IF n \in Nds(G) THEN tombN \cup {n} ELSE tombN
   /\ pure' = (pure /\ n \notin Nds(G))
-  /\ UNCHANGED <<lookup, caps, delivered, eff>>
+  /\ UNCHANGED <<lookup, amode, caps, delivered, eff, pend>>
 
 (* Pruning with the clock at (start of run + two weeks + t): an update with timestamp offset
    below t is stale.  An announcement received during the run counts as old once t >= Grace. *)
@@ -179,23 +259,33 @@ Prune(t, R) ==
   /\ PruneFrom(G, t, R)
   /\ Gprev' = G
   /\ pure' = (pure /\ G' = G)
-  /\ UNCHANGED <<lookup, caps, tombN, delivered, eff>>
+  /\ UNCHANGED <<lookup, amode, caps, tombN, delivered, eff, pend>>
 
+\* pending lookups are not persisted
 Reload ==
   /\ G' = G
   /\ Gprev' = G
-  /\ UNCHANGED <<lookup, caps, tombC, tombN, delivered, eff, pure>>
+  /\ pend' = <<>>
+  /\ UNCHANGED <<lookup, amode, caps, tombC, tombN, delivered, eff, pure>>
 
 -----------------------------------------------------------------------------
-(* A rapid-gossip-sync snapshot: unsigned announcements (added when the scid is unknown) and
-   unsigned updates, all carrying the snapshot's (backdated) timestamp ts; optionally followed
-   by pruning at t.  Unsigned = verification was not requested.                             *)
-RECURSIVE RgsAnns(_, _, _), RgsUpds(_, _, _)
+(* A rapid-gossip-sync snapshot: unsigned announcements (added when the scid is unknown),
+   node records (v2: an unsigned node announcement that keeps the stored alias and sets the
+   address, subject to the timestamp rule) and unsigned updates, all carrying the snapshot's
+   (backdated) timestamp ts; optionally followed by pruning at t.                            *)
+RECURSIVE RgsAnns(_, _, _), RgsNodes(_, _, _, _), RgsUpds(_, _, _)
 RgsAnns(g, anns, ts) ==
   IF anns = <<>> THEN g
   ELSE LET a == Head(anns)
            g2 == IF a.c \in Chs(g) THEN g ELSE AddChan(g, a.c, a.n1, a.n2, a.cap, ts)
        IN RgsAnns(g2, Tail(anns), ts)
+\* g0 = the graph before the snapshot (the alias is copied from there)
+KeptAlias(g0, n) == IF n \in Nds(g0) /\ g0.nd[n].ha THEN g0.nd[n].ap ELSE 0
+SynthNA(g0, r, ts) == [Msg EXCEPT !.k = "na", !.n = r.n, !.ts = ts, !.s = -2,
+                                  !.ap = KeptAlias(g0, r.n), !.ad = r.ad]
+RgsNodes(g, g0, nmods, ts) ==
+  IF nmods = <<>> THEN g
+  ELSE RgsNodes(NAApplyG(g, SynthNA(g0, Head(nmods), ts)), g0, Tail(nmods), ts)
 RDir(u, ts) == [has |-> TRUE, ts |-> ts, en |-> u.en, cltv |-> u.cltv, hmin |-> u.hmin,
                 hmax |-> u.hmax, fb |-> u.fb, fp |-> u.fp]
 RgsUpdOK(g, u, ts) ==
@@ -207,44 +297,44 @@ RgsUpds(g, upds, ts) ==
   ELSE LET u == Head(upds)
            g2 == IF RgsUpdOK(g, u, ts) THEN SetDir(g, u.c, u.d, RDir(u, ts)) ELSE g
        IN RgsUpds(g2, Tail(upds), ts)
+RgsGraph(g, ts, anns, nmods, upds) == RgsUpds(RgsNodes(RgsAnns(g, anns, ts), g, nmods, ts), upds, ts)
 
 SeqToSet(s) == {s[i] : i \in DOMAIN s}
-SynthCA(a) == [k |-> "ca", c |-> a.c, n1 |-> a.n1, n2 |-> a.n2, s1 |-> -2, s2 |-> -2, bs |-> 1,
-               chain |-> TRUE, n |-> 0, d |-> 0, ts |-> 0, s |-> 0, en |-> FALSE, cltv |-> 0,
-               hmin |-> 0, hmax |-> 0, fb |-> 0, fp |-> 0, ap |-> 0, w |-> 0]
-SynthCU(u, ts) == [k |-> "cu", c |-> u.c, n1 |-> 0, n2 |-> 0, s1 |-> 0, s2 |-> 0, bs |-> 0,
-               chain |-> TRUE, n |-> 0, d |-> u.d, ts |-> ts, s |-> -2, en |-> u.en, cltv |-> u.cltv,
-               hmin |-> u.hmin, hmax |-> u.hmax, fb |-> u.fb, fp |-> u.fp, ap |-> 0, w |-> 0]
+SynthCA(a) == [Msg EXCEPT !.k = "ca", !.c = a.c, !.n1 = a.n1, !.n2 = a.n2, !.s1 = -2, !.s2 = -2, !.bs = 1]
+SynthCU(u, ts) == [Msg EXCEPT !.k = "cu", !.c = u.c, !.d = u.d, !.ts = ts, !.s = -2, !.en = u.en,
+                              !.cltv = u.cltv, !.hmin = u.hmin, !.hmax = u.hmax, !.fb = u.fb, !.fp = u.fp]
 
 \* prune = FALSE: no pruning pass; R as for Prune
-Rgs(ts, anns, upds, prune, t, R) ==
-  LET g2 == RgsUpds(RgsAnns(G, anns, ts), upds, ts) IN
+Rgs(ts, anns, nmods, upds, prune, t, R) ==
+  LET g2 == RgsGraph(G, ts, anns, nmods, upds) IN
   /\ IF prune THEN PruneFrom(g2, t, R) ELSE (R = {} /\ G' = g2 /\ tombC' = tombC)
   /\ Gprev' = G
   /\ delivered' = delivered \cup {SynthCA(anns[i]) : i \in DOMAIN anns}
+                            \cup {SynthNA(G, nmods[i], ts) : i \in DOMAIN nmods}
                             \cup {SynthCU(upds[i], ts) : i \in DOMAIN upds}
   /\ pure' = FALSE
-  /\ UNCHANGED <<lookup, caps, tombN, eff>>
+  /\ UNCHANGED <<lookup, amode, caps, tombN, eff, pend>>
 
 -----------------------------------------------------------------------------
 (* Invariants *)
 
-\* every stored item stems from a message that was signed by the announced keys (or from a
-\* snapshot, for which no verification was requested: signer -2)
+\* every stored item stems from a message that was signed by the announced keys (or from an
+\* unsigned entry point / snapshot, for which no verification was requested: signer -2)
 OnlyAuthentic ==
   /\ \A c \in Chs(G) :
-       /\ \E m \in delivered : /\ m.k = "ca" /\ m.c = c /\ m.chain /\ m.bs = 1
+       /\ \E m \in delivered : /\ m.k = "ca" /\ m.c = c /\ m.chain /\ CASigned(m)
                                /\ m.n1 = G.ch[c].n1 /\ m.n2 = G.ch[c].n2
-                               /\ (m.s1 = m.n1 /\ m.s2 = m.n2) \/ (m.s1 = -2 /\ m.s2 = -2)
        /\ \A d \in {0, 1} : DirAt(G, c, d).has =>
             \E m \in delivered : /\ m.k = "cu" /\ m.c = c /\ m.d = d /\ m.chain
                                  /\ DirOf(m) = DirAt(G, c, d)
                                  /\ m.s \in {SignerOf(G, c, d), -2}
                                  /\ (G.ch[c].cap >= 0 => m.hmax <= G.ch[c].cap * 1000)
   /\ \A n \in Nds(G) : G.nd[n].ha =>
-       \E m \in delivered : m.k = "na" /\ m.n = n /\ m.s = n /\ m.ts = G.nd[n].ats /\ m.ap = G.nd[n].ap
+       \E m \in delivered : /\ m.k = "na" /\ m.n = n /\ m.s \in {n, -2} /\ m.ts = G.nd[n].ats
+                            /\ m.ap = G.nd[n].ap /\ m.ad = G.nd[n].ad
 
-\* a stored timestamp never decreases and equal timestamps never replace
+\* a stored timestamp never decreases and equal timestamps never replace -- whatever the entry
+\* point the message came through
 MonoDir(a, b) == (a.has /\ b.has) => (b.ts >= a.ts /\ (b.ts = a.ts => b = a))
 NeverOlder ==
   /\ \A c \in Chs(G) \cap Chs(Gprev) :
@@ -258,7 +348,8 @@ NeverOlder ==
 NodeCleanup == Nds(G) = UNION {Ends(G, c) : c \in Chs(G)}
 
 \* Confluence: as long as nothing was removed, the graph is a function of the SET of valid
-\* messages delivered (each after what it refers to), whatever the order and duplication
+\* messages delivered (each after what it refers to), whatever the order and duplication --
+\* and whether the UTXO source answered at once or later
 CAs(S) == {m \in S : m.k = "ca"}
 Best(S, c, d) ==
   LET U == {m \in S : m.k = "cu" /\ m.c = c /\ m.d = d} IN
@@ -266,7 +357,8 @@ Best(S, c, d) ==
 BestNA(S, n) ==
   LET U == {m \in S : m.k = "na" /\ m.n = n} IN
   IF U = {} THEN NoAnn
-  ELSE LET b == CHOOSE m \in U : \A o \in U : o.ts <= m.ts IN [ha |-> TRUE, ats |-> b.ts, ap |-> b.ap]
+  ELSE LET b == CHOOSE m \in U : \A o \in U : o.ts <= m.ts
+       IN [ha |-> TRUE, ats |-> b.ts, ap |-> b.ap, ad |-> b.ad]
 F(S) ==
   [ch |-> [c \in {m.c : m \in CAs(S)} |->
              LET a == CHOOSE m \in CAs(S) : m.c = c IN
